@@ -307,7 +307,7 @@ def run_shard(ctx, args):
                                 "first_steps": [[s[0][:12], s[1], s[2], s[3]]
                                                 for s in steps[:3]]})
         except ValueError as ex:
-            if "does not fit" in str(ex) or "must be in" in str(ex):
+            if wb.outside_domain(desc):
                 ctx.count("generator_rejected_by_ctor")
                 continue
             raise
@@ -436,7 +436,7 @@ def pairs_shard(ctx, args):
             for e in (1, 2):
                 pair_histories(ctx, desc, e, args["budget"])
         except ValueError as ex:
-            if "does not fit" in str(ex) or "must be in" in str(ex):
+            if wb.outside_domain(desc):
                 ctx.count("generator_rejected_by_ctor")
                 continue
             raise
